@@ -66,7 +66,7 @@ def main():
             ctx = framework.Ctx("T", "quick")
             und, sites = panic_rules.panic_freedom(ctx, prog, "R1", "R2", kind)
             for s in und:
-                e = sigs.setdefault(s.sig, {"signature": s.sig, "roots": [], "where_today": s.fn.file_line(s.block)})
+                e = sigs.setdefault(s.sig, {"signature": s.sig, "key": s.key, "roots": [], "where_today": s.fn.file_line(s.block)})
                 if kind not in e["roots"]:
                     e["roots"].append(kind)
     out, open_ = [], []
